@@ -234,7 +234,16 @@ def _defaultdict(interp, args, kwargs):
     return d
 
 
-EXTERNALS = {"Bio.Seq.Seq": bio_seq, "re.compile": _re_compile, "re.match": _re_apply("match"),
+def _marshmallow_schema(interp, args, kwargs):
+    """marshmallow_dataclass: ``Model.Schema().load(d)`` builds the model from the dictionary d.  Trusted library
+    model: the loaded model is recorded as the dictionary passed in (field validation / coercion by marshmallow is
+    third-party behaviour and not modelled)."""
+    from pyvc.values import Opaque
+    interp.trusted_used.add("marshmallow Model.Schema().load(d): records d")
+    return Opaque("schema", methods={"load": lambda interp2, d: Opaque("model", attrs={"$data": d})})
+
+
+EXTERNALS = {"marshmallow.Schema": _marshmallow_schema, "Bio.Seq.Seq": bio_seq, "re.compile": _re_compile, "re.match": _re_apply("match"),
              "re.search": _re_apply("search"), "re.sub": _re_sub, "re.fullmatch": _re_apply("fullmatch"),
              "collections.defaultdict": _defaultdict}
 EXTERNAL_CONSTS = {"string.punctuation": _string.punctuation, "re.IGNORECASE": int(_re.IGNORECASE),
